@@ -24,4 +24,37 @@ def setNode (n : String) (newCap : Option R) (rollbackRestores : Bool := true) :
        | none => pure ()
        | some _ => step "pluginSetCapacity" n (if rollbackRestores then setCap n origin else fun x => x)))
 
+/-- `AddNode`: ask the engine, create the plugin record, then the store record; a failing store
+write removes the plugin record again. `c`: the capacity the plugin derives from the request.
+A node the plugin already knows is refused by the plugin (nothing happens). -/
+def addNode (n : String) (c : R) : M R Unit := do
+  readStep "engineInfo" n
+  let s ← getSt
+  txn (if s.pnodes.contains n then do readStep "pluginAddNode" n; refuse
+       else step "pluginAddNode" n (pAddNode n c))
+      (step "storeAddNode" n (sAddNode n))
+      (onThenFailure (step "pluginRemoveNode" n (pRmNode n)))
+
+/-- condition step of `RemoveNode`: mark the node down (result ignored), delete the store record,
+drop the status (result ignored) -/
+def removeNodeCond (n : String) : M R Unit := do
+  let _ ← attempt (readStep "storeSetNodeStatus" n)
+  step "storeRemoveNode" n (sRmNode n)
+  let _ ← attempt (readStep "storeSetNodeStatus" n)
+  pure ()
+
+def removeNodeTxn (n : String) : M R Unit :=
+  txn (removeNodeCond n) (step "pluginRemoveNode" n (pRmNode n)) (some fun _ => pure ())
+
+/-- `RemoveNode`: only an empty node; the store record goes in the condition step, the plugin record
+in the then step, and the rollback does nothing (so a failing plugin call leaves the plugin record
+of a node the store no longer knows: D16c). -/
+def removeNode (n : String) : M R Unit := do
+  readStep "storeGetNode" n
+  let s ← getSt
+  if s.nodes.contains n then do
+    readStep "storeListNodeWorkloads" n
+    if s.wls.any (fun w => w.node == n) then refuse else removeNodeTxn n
+  else refuse
+
 end Eru.Cluster
